@@ -202,4 +202,11 @@ def run(ctx):
     # a refused bridge call must not mint or burn: the block-protocol validator refuses, before anything executes, every call
     # that the database layer would only refuse after the EVM state change was applied (existing hash / number, wrong index)
     ER.clause_validator_rows(R, F)
+    # the ledger lives in EVM state: the three state tables follow the chain (a reorg that leaves one out keeps balances of
+    # orphaned deposits; a clear_caches that leaves one out keeps uncommitted mints)
+    import tablerules as T
+    state_tables = T.fields_touched(F, ["get_account_info", "get_account_memory", "get_code"])
+    R.floor("state_tables", len(state_tables), 3)
+    for dm in ("reorg", "clear_caches", "commit_changes"):
+        T.clause_tables(R, F, dm, only_fields=state_tables)
     return R
